@@ -109,6 +109,8 @@ END_SCHEMA;
 """
 
 MINI = {
+    'm_bound_expr': "SCHEMA m_bound_expr;\nCONSTANT\n  half_width : INTEGER := 2;\n  n : INTEGER := 3;\nEND_CONSTANT;\nTYPE row = ARRAY [-half_width : half_width] OF REAL; END_TYPE;\n"
+                    "TYPE lst = LIST [n : n + 1] OF INTEGER; END_TYPE;\nENTITY e; a : ARRAY [-half_width : 2] OF REAL; b : LIST [1 : n * 2] OF INTEGER; c : SET [0 : -(-n)] OF STRING; d : row; f : lst;\nEND_ENTITY;\nEND_SCHEMA;\n",
     'm_simple': "SCHEMA m_simple;\nENTITY a; i : INTEGER; r : REAL; n : NUMBER; s : STRING; b : BINARY; bo : BOOLEAN; l : LOGICAL; END_ENTITY;\nEND_SCHEMA;\n",
     'm_enum': "SCHEMA m_enum;\nTYPE e = ENUMERATION OF (x1, x2, x3); END_TYPE;\nTYPE e2 = e; END_TYPE;\nENTITY a; v : e; w : OPTIONAL e2; END_ENTITY;\nEND_SCHEMA;\n",
     'm_select': "SCHEMA m_select;\nTYPE d1 = INTEGER; END_TYPE;\nTYPE d2 = STRING; END_TYPE;\nTYPE s1 = SELECT (d1, d2); END_TYPE;\nTYPE s2 = SELECT (s1, b); END_TYPE;\nTYPE s3 = s2; END_TYPE;\nENTITY b; q : d1; END_ENTITY;\nENTITY a; v : s1; w : s2; u : OPTIONAL s3; END_ENTITY;\nEND_SCHEMA;\n",
@@ -314,6 +316,59 @@ def semantic_mutants(name, text, max_pos=4):
     # 12 bad INVERSE
     yield ('bad-inverse', 'names-missing-attribute', 'zq_nosuch', ins('ENTITY zq_o;\n INVERSE\n  back : SET [0:?] OF zq_i FOR zq_nosuch;\nEND_ENTITY;\nENTITY zq_i; own : zq_o; END_ENTITY;\n'))
     yield ('bad-inverse', 'names-non-entity', 'zq_ty', ins('TYPE zq_ty = INTEGER; END_TYPE;\nENTITY zq_o;\n INVERSE\n  back : SET [0:?] OF zq_ty FOR own;\nEND_ENTITY;\n'))
+
+
+def reference_mutants(name, text, limit=None):
+    """yield (cls, detail, planted, mutated_text): an undefined name in place of a bare reference to an attribute, local variable, parameter
+    or constant, at EVERY such position inside an expression (initialisers, DERIVE, WHERE, statements).  Only names that the schema declares with
+    'name :' are replaced, only where they are not qualified ( . or \\ before), not called and not being declared - so the mutant always holds
+    an unresolvable reference."""
+    toks = code_tokens(text)
+    low = [(k, t.lower() if k == 'id' else t, off) for k, t, off in toks]
+    declared = set()
+    for i, (k, t, off) in enumerate(low):
+        if k == 'id' and i + 1 < len(low) and low[i + 1][1] in (':', ','):
+            # walk an identifier list  a , b , c :
+            j = i
+            ok = False
+            while j + 1 < len(low) and low[j][0] == 'id':
+                if low[j + 1][1] == ':':
+                    ok = True
+                    break
+                if low[j + 1][1] != ',':
+                    break
+                j += 2
+            if ok:
+                declared.add(t)
+    declared -= {'self', 'otherwise'}
+    # expression regions: from ':=' / WHERE label ':' / RETURN / IF / WHILE / UNTIL / CASE ... to the closing ';' | THEN | OF
+    n = 0
+    region = False
+    in_where = False
+    for i, (k, t, off) in enumerate(low):
+        if k == 'id' and t in ('where',):
+            in_where = True
+        if k == 'id' and t in ('end_entity', 'end_type', 'end_rule'):
+            in_where = False
+        if t == ':=' or (k == 'id' and t in ('return', 'if', 'while', 'until', 'case')) or (in_where and t == ':' and i >= 1 and low[i - 1][0] == 'id'):
+            region = True
+            continue
+        if t == ';' or (k == 'id' and t in ('then', 'of')):
+            region = False
+            continue
+        if not region or k != 'id' or t not in declared:
+            continue
+        prev = low[i - 1][1] if i else ''
+        nxt = low[i + 1][1] if i + 1 < len(low) else ''
+        if prev in ('.', '\\') or nxt in ('(', ':', '<*'):
+            continue
+        planted = 'zq_undef_%d' % n
+        n += 1
+        ctx = '%s_%s' % (prev if prev in ('=', '<>', '<', '>', '<=', '>=', ':=:', ':<>:', 'in', 'like', '+', '-', '*', '/', '**', 'and', 'or', 'xor', 'not', ':=', '(', '[', ',', '|', 'div', 'mod', '||') else 'x',
+                         nxt if nxt in ('=', '<>', '<', '>', '<=', '>=', ':=:', ':<>:', 'in', 'like', '+', '-', '*', '/', '**', 'and', 'or', 'xor', ')', ']', ',', ';', '[', '.', 'div', 'mod', '||', 'then') else 'x')
+        yield ('undefined-attribute', 'ref:%s' % ctx, planted, text[:off] + planted + text[off + len(toks[i][1]):])
+        if limit and n >= limit:
+            return
 
 
 MUST_REJECT_DELETE = {'SCHEMA', 'END_SCHEMA', 'ENTITY', 'END_ENTITY', 'TYPE', 'END_TYPE', 'FUNCTION', 'END_FUNCTION', 'PROCEDURE', 'END_PROCEDURE',
